@@ -555,6 +555,45 @@ def t3_infinite_iterators(facts, rep, seen):
     return n
 
 
+def bounded_region(facts, rep, entries, rule, crate="nomt"):
+    """every loop of the functions of `crate` reachable from `entries` is iterator-, counter- or pop-driven (machine-checked
+    classes only, nothing listed): used for "never a hang" clauses outside the verifiers"""
+    seen, st = set(), list(entries)
+    for e in entries:
+        facts.body(e)
+    while st:
+        cur = st.pop()
+        if cur in seen:
+            continue
+        body = facts.bodies.get(cur)
+        if body is None or body.crate != crate:
+            continue
+        seen.add(cur)
+        for (b, c, t, kind) in facts.callees(body):
+            if kind in ("call", "closure") and c not in seen:
+                st.append(c)
+    n = 0
+    for fn in sorted(seen):
+        body = facts.bodies[fn]
+        short = fn.split("::", 1)[1]
+        k = 0
+        for (h, blk, lat) in natural_loops(body):
+            n += 1
+            k += 1
+            whys = []
+            ok = False
+            for (name, f) in (("iterator", iterator_driven), ("counter", counter_driven), ("pop", pop_driven)):
+                r, why = f(body, h, blk, lat)
+                if r:
+                    ok = True
+                    rep.ok(rule, short, "loop#%d" % k, "%s-driven: %s" % (name, why))
+                    break
+                whys.append(why)
+            if not ok:
+                rep.violation(rule, short, "loop#%d|unbounded" % k, "a loop on this path has no bound the analysis can see (%s): on a full table the operation spins instead of returning an error" % "; ".join(whys), site=body.term(h).get("ln") or body.span)
+    return len(seen), n
+
+
 def run(facts, rep):
     seen = panicfree.reachable_set(facts)
     n_loops, n_iter = t1_loops(facts, rep, seen)
